@@ -734,8 +734,15 @@ class EventBus:
                     self._on_idle = asyncio.Event()
                     self._on_idle.clear()  # Start in a busy state unless we confirm queue is empty by running step() at least once
 
-                # Create and start the run loop task
-                self._runloop_task = loop.create_task(self._run_loop(), name=f'{self}._run_loop')
+                # Create and start the run loop task in its own copy of the context: when the bus is first used
+                # from inside a handler, the run loop must not inherit that handler's lock ownership / handler state,
+                # otherwise it would bypass the global lock forever and release a semaphore it never acquired
+                runloop_context = contextvars.copy_context()
+                runloop_context.run(holds_global_lock.set, False)
+                runloop_context.run(inside_handler_context.set, False)
+                runloop_context.run(_current_event_context.set, None)
+                runloop_context.run(_current_handler_id_context.set, None)
+                self._runloop_task = loop.create_task(self._run_loop(), name=f'{self}._run_loop', context=runloop_context)
                 self._is_running = True
             except RuntimeError:
                 # No event loop - will start when one becomes available
